@@ -9,6 +9,7 @@ import Proofs.Frame
 import Proofs.FlatComplete
 import Proofs.Kept
 import Proofs.RegFrame
+import Proofs.KeptDecl
 
 namespace Measured
 
@@ -20,6 +21,8 @@ alias C01.invariants_survive_every_query_history := queries_good
 alias C02.canonical_after_every_query_history := queries_good
 /-- … and every factor of every unit is still a base unit (C13's rendering theorem applies in those states) -/
 alias C13.base_factors_after_every_query_history := queries_good
+/-- the same with declarations (`equals`, `scale`) in the history -/
+alias C01.invariants_survive_every_history := history_good
 /-- one conversion between existing units, returning or raising -/
 alias C01.conversion_keeps_invariants := good_convert
 
@@ -66,6 +69,8 @@ alias C09.connected_is_found := findPath_connected
 alias C19.conversion_touches_no_registry := rframed_convert
 /-- the registries stay faithful through every history of queries, unit operations and declarations -/
 alias C19.registries_faithful_after_every_query_history := queries_faithful
+/-- the same with declarations of equivalences in the history -/
+alias C19.registries_faithful_in_every_history := history_faithful
 
 /-! ## C11 — prefixes in conversions -/
 
